@@ -170,8 +170,9 @@ class Model:
             from .normalise import inline_fresh_helpers, specialise_fresh_factories, nest_lifted_closures, split_conditional_expressions
             from .normalise import strip_diagnostics, strip_annotations
             na = strip_annotations(self.modules)
-            from .normalise import canonical_iter_sentinel
+            from .normalise import canonical_iter_sentinel, canonical_index_loops
             self.inlined += canonical_iter_sentinel(self.modules)
+            self.inlined += canonical_index_loops(self.modules)
             from .normalise import propagate_fresh_constants, specialise_fresh_optional_params
             self.inlined += propagate_fresh_constants(self.modules)
             self.inlined += specialise_fresh_optional_params(self.modules)
